@@ -10,28 +10,9 @@ use weechess_engine::eval::{Evaluation, Evaluator};
 #[cfg(replay)]
 use crate::kani;
 
-/// A family: kings plus a fixed list of men (colour, kind), all squares symbolic and distinct.
+/// A family without castling rights or en-passant target (the evaluator reads neither).
 pub fn family(wtm: bool, men: &[(usize, u8)], tag: &str) -> Pos {
-    let mut bb = [[0u64; 6]; 2];
-    let wk: u8 = kani::any();
-    let bk: u8 = kani::any();
-    kani::assume(wk < 64 && bk < 64 && wk != bk);
-    bb[0][K] = bit(wk);
-    bb[1][K] = bit(bk);
-    let mut occ = bit(wk) | bit(bk);
-    let mut i = 0;
-    while i < men.len() {
-        let s: u8 = kani::any();
-        kani::assume(s < 64 && occ & bit(s) == 0);
-        occ |= bit(s);
-        let (c, k) = men[i];
-        bb[c][(k - 1) as usize] |= bit(s);
-        i += 1;
-    }
-    let p = Pos { bb, wtm, rights: [false; 4], ep: NO_SQ, half: 0, full: 1 };
-    kani::assume(legal_position(&p));
-    print_pos(tag, &p);
-    p
+    crate::sym::family(wtm, men, false, false, tag)
 }
 
 /// Does the side to move — a lone king — have a legal move? Eight steps, loop-free.
